@@ -263,10 +263,10 @@ Definition decode_caps_lz (L : lzone) (caps : list (tok * list Z)) : list Z * Z 
 Definition start_off (L : lzone) (caps : list (tok * list Z)) (u : Z) : Z :=
   match cap_of Tz caps with Some z => zone_off z | None => lz_at L u end.
 
-Fixpoint bytes_eqb (a b : list Z) : bool :=
+Fixpoint name_eqb (a b : list Z) : bool :=
   match a, b with
   | [], [] => true
-  | x :: a', y :: b' => (x =? y) && bytes_eqb a' b'
+  | x :: a', y :: b' => (x =? y) && name_eqb a' b'
   | _, _ => false
   end.
 
@@ -276,7 +276,7 @@ Definition decode_lz (L : lzone) (f v : list Z) : option (list Z * Z * Z) :=
   match mtch true (tokenize f) v with
   | Some caps =>
       let '(p, u, n) := decode_caps_lz L caps in
-      if bytes_eqb (encode_go f p (mkI u n (start_off L caps u))) v then Some (p, u, n) else None
+      if name_eqb (encode_go f p (mkI u n (start_off L caps u))) v then Some (p, u, n) else None
   | None => None
   end.
 
@@ -360,3 +360,8 @@ Definition encodable (loff : Z) (ts : list tok) (t : instant) : bool := encodabl
 (* Start as Decode returns it for a name written by Encode *)
 Definition trunc_start (ts : list tok) (t : instant) : Z * Z :=
   (i_unix t, if has Tf ts then i_ns t / 1000 * 1000 else 0).
+
+(* where time.Date / time.Unix put the Start of a name Encode wrote for t (Proofs: decode_lz_unfold) *)
+Definition decoded_unix (L : lzone) (ts : list tok) (t : instant) : Z :=
+  if has Ts ts then i_unix t
+  else i_unix t + i_off t - (if has Tz ts then i_off t else lz_date L (i_unix t + i_off t)).
